@@ -331,6 +331,21 @@ def result_edges(fn, dest):
 SWALLOWERS = ("ok", "unwrap_or", "unwrap_or_default", "unwrap_or_else", "is_err", "is_ok", "err", "unwrap", "expect")
 
 
+def _failure_reported(fn, term):
+    """`r.is_err()` / `r.is_ok()`: does the edge on which r is an Err lead to Err returns only (the failure is
+    reported, possibly as another error value)?"""
+    name = term.get("callee", "").rsplit("::", 1)[-1]
+    if name not in ("is_err", "is_ok") or not term.get("dest") or term["dest"][1]:
+        return False
+    e = bool_switch_edges(fn, term["dest"][0])
+    if not e or e[0] == e[1]:
+        return False
+    err_edge = e[0] if name == "is_err" else e[1]
+    reach = fn.reachable_from(err_edge) | {err_edge}
+    kinds = {k for bb, k, _ in return_kinds(fn) if bb in reach}
+    return bool(kinds) and "Ok" not in kinds and "Some" not in kinds and "other" not in kinds
+
+
 def result_fate(fn, b, t):
     """What happens to the Result produced by call `t` in block b.
     'propagated' | 'dropped' | 'swallowed:<how>' | 'inspected'"""
@@ -351,6 +366,8 @@ def result_fate(fn, b, t):
                 if name == "branch" or name == "from_residual":
                     return "propagated"
                 if name in SWALLOWERS and ("Result" in us.get("callee", "") or "result" in us.get("callee", "")):
+                    if _failure_reported(fn, us):
+                        return "propagated"
                     fate = fate or f"swallowed:{name}"
                     continue
                 return "propagated"  # handed to another function (map_err, and_then, a visitor ...)
@@ -371,6 +388,8 @@ def result_fate(fn, b, t):
                             if vi == "term" and vs["k"] in ("call", "tailcall"):
                                 name = vs.get("callee", "").rsplit("::", 1)[-1]
                                 if name in SWALLOWERS:
+                                    if _failure_reported(fn, vs):
+                                        return "propagated"
                                     fate = fate or f"swallowed:{name}"
                                 else:
                                     return "propagated"
